@@ -52,7 +52,9 @@ def rule_converters(ctx):
         yield ob(R, f, "%s:converters" % q, got == want and fwd and fwd_opts, "columns are converted with %s (documented %s); filename, delimiter and comment are forwarded" % (got, want), node=c[0].node)
         # arrays at default precision
         for i, x in enumerate(y for y in s.calls() if y.callee in ("np.array", "np.asarray", "np.concatenate")):
-            narrowing = any(n == "dtype" for n, _ in x.kw) or (x.callee == "np.array" and len(x.args) > 1)
+            # dtype=float / np.float64 spells the default precision out
+            dts = [v for n, v in x.kw if n == "dtype"] + (list(x.args[1:2]) if x.callee in ("np.array", "np.asarray") else [])
+            narrowing = any(not ((v.op == "builtin" and v.a[0] == "float") or (v.op == "ext" and v.a[0] in ("np.float64", "np.double", "np.float_")) or (v.op == "const" and v.a[0] in ("float64", "float", "f8", "d"))) for v in dts)
             yield ob(R, f, "%s:array@%d" % (q, i), not narrowing, "array built with %s at default precision" % x.callee, node=x.node)
     # load_delimited: split(line.strip(), n_columns - 1) with the compiled delimiter; enumerate(file, 1)
     f = ctx.program.func("io.load_delimited", R)
@@ -376,6 +378,8 @@ def rule_comment(ctx):
                 pat = a.a[1][0]
                 if pat.op == "call" and call_name(pat) == ".format" and pat.a[1][0].op == "const" and str(pat.a[1][0].a[0]).startswith("^") and pat.a[1][1].op == "param" and pat.a[1][1].a[0] == "comment":
                     anchored = True
+                if pat.op == "fstr" and len(pat.a) == 2 and tm.is_const(pat.a[0], "^") and pat.a[1].op == "param" and pat.a[1].a[0] == "comment":
+                    anchored = True  # "^{}".format(comment) / f"^{comment}"
                 if pat.op == "bin" and pat.a[0] == "+" and any(tm.is_const(z, "^") for z in (pat.a[1], pat.a[2])):
                     anchored = True
         on_line = len(x.args) == 1 and x.args[0].op in ("iter", "sub")
